@@ -251,8 +251,12 @@ func (e *FnEnc) stableGlobalTerm(g *ssa.Global, key string, t types.Type) string
 		}
 		if !e.globalFactSeen[fct] {
 			e.globalFactSeen[fct] = true
-			e.note("package variable " + g.Name() + " is assigned once, by its initialiser, from regexp.MustCompile or a fresh allocation: not nil")
+			e.note("package variable " + g.Name() + " is assigned once, by its initialiser, from regexp.MustCompile or a fresh allocation: not nil, and distinct from every other such variable")
 			e.decls = append(e.decls, "(assert "+fct+")")
+			for _, other := range e.nonNilGlobals {
+				e.decls = append(e.decls, fmt.Sprintf("(assert (not (= %s %s)))", term, other))
+			}
+			e.nonNilGlobals = append(e.nonNilGlobals, term)
 		}
 	}
 	return term
